@@ -251,7 +251,7 @@ def rr_rules(ctx, A):
             # the field push happens in every iteration that does not leave with Err / Ok(None)
             from r_panic import cycle_without
             every = not cycle_without(rr, L[1], h, {fc['block']})
-            ctx.ob(['C01', 'C14'], 'R-DOM', 'RR|every-field-pushed', every, 'every trip around the field loop pushes the field region (no field is skipped)', loc(fc['span']))
+            ctx.ob(['C01', 'C14', 'C03'], 'R-DOM', 'RR|every-field-pushed', every, 'every trip around the field loop pushes the field region (no field is skipped)', loc(fc['span']))
             sty, src = loop_source(rr, L)
             unadapted = sty is not None and re.match(r'^std::vec::IntoIter<\(std::option::Option<usize>, %s\)>$' % re.escape(REGION), sty)
             srcs = strip(src) if src else None
@@ -507,7 +507,7 @@ def tdb_rules(ctx, A):
             cl = th[0][2][1]
             sole = cl[0] == 'closure' and cl[1] in P.fns and any(c_['path'] and c_['path'].endswith('Type::alignment') for c_ in P.fns[cl[1]].calls())
         a_ok = explicit_first and sole
-    ctx.ob(['C02'], 'R-EXPR', 'TDB|alignment-selection', a_ok, 'effective alignment = explicit align, else the sole field\'s alignment, else the pointer size: %s' % show(Astr)[:200], where)
+    ctx.ob(['C02', 'C03', 'C20'], 'R-EXPR', 'TDB|alignment-selection', a_ok, 'effective alignment = explicit align, else the sole field\'s alignment, else the pointer size: %s' % show(Astr)[:200], where)
     # G3
     g3 = []
     for g in gs:
@@ -519,7 +519,7 @@ def tdb_rules(ctx, A):
             if is_call(strip(a), 'util::lcm') and isA(b):
                 g3.append((g, op, strip(a)))
     ok3 = len(g3) == 1 and g3[0][1] == 'Gt'
-    ctx.ob(['C02', 'C03'], 'R-GUARD', 'G3|alignment-at-least-fields', ok3, 'lcm(field alignments) > alignment ⇒ Err, strictly (found %s)' % [(op, show(a)[:60]) for g, op, a in g3],
+    ctx.ob(['C02', 'C03', 'C01'], 'R-GUARD', 'G3|alignment-at-least-fields', ok3, 'lcm(field alignments) > alignment ⇒ Err, strictly (found %s)' % [(op, show(a)[:60]) for g, op, a in g3],
            g3[0][0].where() if g3 else where)
     if g3:
         g, op, lc = g3[0]
@@ -575,14 +575,14 @@ def tdb_rules(ctx, A):
         elem_align = find_calls(rem[3], 'Type::alignment')[0]
         elem = [x for x in walk(elem_align[2][0]) if is_call(x, 'Iterator::next')]
         over_R = src is not None and any(strip(x) == R for x in walk(src)) and sty and re.match(r"^std::slice::Iter<'_, %s>$" % re.escape(REGION), sty)
-        ctx.ob(['C01', 'C03'], 'R-ITER', 'G2|every-region-every-iteration', bool(okit and over_R and elem),
+        ctx.ob(['C01', 'C03', 'C02'], 'R-ITER', 'G2|every-region-every-iteration', bool(okit and over_R and elem),
                'the test runs in every iteration of a loop over all regions of the final vector (iterator %s), on the non-packed branch on every path to success%s' % (
                    sty, '' if via is None else ' (in helper %s)' % short(G.id)), g.where())
         acc = rem[2]
         defs = G.init_of(acc[1])
         okacc = len(defs) == 2 and any(is_int(d, 0) for d in defs) and any(
             d[0] == 'bin' and d[1] == 'Add' and strip(d[2]) == acc and size_of_region(d[3], lambda r: bool(elem) and any(x == elem[0] for x in walk(r))) for d in defs)
-        ctx.ob(['C01', 'C03'], 'R-EXPR', 'G2|offset-is-prefix-sum', okacc, 'the tested offset starts at 0 and advances by the size of the current region: %s' % [show(d)[:120] for d in defs], g.where())
+        ctx.ob(['C01', 'C03', 'C02'], 'R-EXPR', 'G2|offset-is-prefix-sum', okacc, 'the tested offset starts at 0 and advances by the size of the current region: %s' % [show(d)[:120] for d in defs], g.where())
         # update happens after the test in the iteration
     # G15 effective alignment is a power of two (in particular non-zero)
     g15 = [g for g in gs if g.kind == 'reject' and find_calls(g.pred, 'is_power_of_two') and any(isA(x) for c in find_calls(g.pred, 'is_power_of_two') for x in c[2])]
@@ -796,8 +796,8 @@ ORDER_CHANGING = re.compile(r'(slice::<impl \[T\]>::(sort\w*|reverse|swap|rotate
                             r'Iterator::(rev|skip|take|step_by|skip_while|take_while|map_while|scan|fuse|cycle)|DoubleEndedIterator::\w+|Iterator::(last|max\w*|min\w*))$')
 # reviewed order-changing calls: (function, callee fragment, element type fragment) -> reason
 SEQ_ALLOW = [
-    ('backends::rust::write_module', 'sort_by_key', 'ItemDefinition', 'definitions are sorted by path: this is what makes the output independent of hash order (C09/C20)'),
-    ('backends::rust::write_module', 'sort_by_key', 'ExternValue', 'extern accessors are sorted by name; no property fixes their relative order'),
+    ('backends::rust::write_module', '::sort', 'ItemDefinition', 'definitions are sorted by path: this is what makes the output independent of hash order (C09/C20); the key is checked by R-ORDER'),
+    ('backends::rust::write_module', '::sort', 'ExternValue', 'extern accessors are sorted (by name); no property fixes their relative order, any sort of a Vec is a deterministic function of it'),
     ('semantic::type_registry::TypeRegistry::resolve_string', 'Iterator::rev', 'ItemPath', 'last `use` of a type wins (C11 precedence)'),
 ]
 
@@ -868,14 +868,14 @@ def type_size_rules(ctx):
             vals = arms.get(v, [])
             ok = len(vals) == 1 and vals[0][0] == 'some' and is_call(strip(vals[0][1]), 'pointer_size') and not any(
                 isinstance(x, tuple) and x[0] == 'payload' and x[2] in ('ConstPointer', 'MutPointer', 'Function') for x in walk(vals[0][1]))
-            ctx.ob(['C02', 'C10'], 'R-EXPR', 'Type::%s|%s' % (name, v), ok, '%s of a %s is Some(pointer_size) and never looks at the pointee: %s' % (name, v, shw(vals)), loc(f.span))
+            ctx.ob(['C02', 'C10', 'C03'], 'R-EXPR', 'Type::%s|%s' % (name, v), ok, '%s of a %s is Some(pointer_size) and never looks at the pointee: %s' % (name, v, shw(vals)), loc(f.span))
         vals = arms.get('Raw', [])
         ok = False
         if len(vals) == 1 and vals[0][0] == 'opt':
             q = strip(vals[0][1])
             ok = is_call(q, 'ItemDefinition::' + name) and strip(q[2][0])[0] == 'try' and is_call(strip(strip(q[2][0])[1]), 'TypeRegistry::get') and \
                 any(isinstance(x, tuple) and x[0] == 'payload' and x[2] == 'Raw' for x in walk(strip(strip(q[2][0])[1])[2][1]))
-        ctx.ob(['C02', 'C11'], 'R-EXPR', 'Type::%s|Raw' % name, ok, '%s of a named type is the registry entry\'s resolved %s (entry looked up by the full path): %s' % (name, name, shw(vals)), loc(f.span))
+        ctx.ob(['C02', 'C11', 'C03'], 'R-EXPR', 'Type::%s|Raw' % name, ok, '%s of a named type is the registry entry\'s resolved %s (entry looked up by the full path): %s' % (name, name, shw(vals)), loc(f.span))
         vals = arms.get('Array', [])
         elem_of_self = lambda x: any(isinstance(y, tuple) and y[0] == 'payload' and y[2] == 'Array' and y[3] == 0 for y in walk(x))
         if name == 'size':
@@ -894,10 +894,10 @@ def type_size_rules(ctx):
                     ops = [strip(o) for o in e[2]]
                     ok = any(o[0] == 'try' and is_call(strip(o[1]), 'Type::size') and elem_of_self(strip(o[1])[2][0]) for o in ops) and \
                         any(any(isinstance(y, tuple) and y[0] == 'payload' and y[2] == 'Array' and y[3] == 1 for y in walk(o)) for o in ops)
-            ctx.ob(['C02', 'C10'], 'R-EXPR', 'Type::size|Array', ok, 'size of an array is element size × count: %s' % shw(vals), loc(f.span))
+            ctx.ob(['C02', 'C10', 'C03', 'C01'], 'R-EXPR', 'Type::size|Array', ok, 'size of an array is element size × count: %s' % shw(vals), loc(f.span))
         else:
             ok = len(vals) == 1 and vals[0][0] == 'opt' and is_call(strip(vals[0][1]), 'Type::alignment') and elem_of_self(strip(vals[0][1])[2][0])
-            ctx.ob(['C02'], 'R-EXPR', 'Type::alignment|Array', bool(ok), 'alignment of an array is its element\'s alignment: %s' % shw(vals), loc(f.span))
+            ctx.ob(['C02', 'C03'], 'R-EXPR', 'Type::alignment|Array', bool(ok), 'alignment of an array is its element\'s alignment: %s' % shw(vals), loc(f.span))
 
 
 # ------------------------------------------------------------------------------------------------
